@@ -380,6 +380,11 @@ async def part_workload(flavor, case, J):
                 J.sigs.add(f"workload|{spec['proto']}|{spec['proxy']}|{type(exc).__name__}")
                 if not documented(exc):
                     J.v(f"undocumented:workload:{exc_name(exc)}", f"{rec['token']} ({rec['beh']}): {exc!r}", {"spec": spec, "token": rec["token"]})
+                elif isinstance(exc, httpcore.LocalProtocolError) and rec["beh"] != "bad-upload":
+                    # LocalProtocolError says "the caller sent something illegal": the class must match the cause
+                    cnt["oracle_class"] += 1
+                    J.v(f"wrong-class:workload:{spec['proto']}:LocalProtocolError", f"{rec['token']} ({rec['beh']}), a legal request, "
+                        f"failed with {exc!r}", {"spec": spec, "token": rec["token"]})
         try:
             await wl.api.close_pool()
         except Exception:  # noqa
